@@ -44,6 +44,13 @@ def gen_function(world, contracts, externals, key):
             V.add_hyp(f)
     for p in fn['freevars']:
         V.add_hyp(z3.Const('p_' + p['name'], world.sort(p['type'])) != 0)
+    # captured variables are distinct variables of the enclosing function
+    bytype = {}
+    for p in fn['freevars']:
+        bytype.setdefault(p['type'], []).append(z3.Const('p_' + p['name'], world.sort(p['type'])))
+    for ty, ps in bytype.items():
+        if len(ps) > 1 and prog.kind(ty) == 'ptr':
+            V.add_hyp(z3.Distinct(*ps))
     # freevars are addresses of captured variables: spec sees their contents
     from .world import LValue as LV
     for p in fn['freevars']:
@@ -58,12 +65,18 @@ def gen_function(world, contracts, externals, key):
                 V.add_hyp(ev0.boolean(ast))
             if c.get('decreases') is not None:
                 V.entry_variant = ev0.ev(c['decreases'][0]).t
+        # axioms of the function's own package are hypotheses; lemmas are proved on their own and are only
+        # used where a contract names them (`uses`), so that one package's arithmetic never burdens another's VCs
+        uses = set(c.get('uses', [])) if c is not None else set()
         for (lab, ast, txt, f) in contracts['axioms']:
-            V.global_hyps.append(SpecEval(V, pkg_of_file(f, pkg), {}, H0, old=H0).boolean(ast))
+            if pkg_of_file(f, pkg) == pkg:
+                V.global_hyps.append(SpecEval(V, pkg, {}, H0, old=H0).boolean(ast))
         for (lab, ast, txt, f) in contracts['lemmas']:
-            V.global_hyps.append(SpecEval(V, pkg_of_file(f, pkg), {}, H0, old=H0).boolean(ast))
+            if lab in uses:
+                V.global_hyps.append(SpecEval(V, pkg_of_file(f, pkg), {}, H0, old=H0).boolean(ast))
     except SpecError as e:
         raise OutOfSubset('contract of %s: %s' % (key, e))
+    V.entry_lock_depth = H0.get(('ghost', 'lock_Lock', I)) - H0.get(('ghost', 'lock_Unlock', I))
     V.pre_hyps = len(V.hyps)
     rr, res, hp = X.run(args, H0, z3.BoolVal(True))
     V.cur_block = None
